@@ -84,6 +84,15 @@ exec(  # noqa: S102
 )
 U5, N5, A5, S5, F5, R5 = (_UNREG.__dict__[k] for k in ("U5", "N5", "A5", "S5", "F5", "R5"))
 
+from typing import Literal  # noqa: E402,F401  (named by the string alias below)
+
+L6 = t.Literal["a", "b"]  # a subscripted special form as the base: unwrap must still see through Final / NewType / alias
+N6 = t.NewType("N6", L6)
+type A6 = L6
+type S6 = "Literal['a', 'b']"
+F6 = t.Final[L6]
+R6 = t.ForwardRef("Literal['a', 'b']", module=__name__, is_class=True)
+
 # index: 0 itself, 1 NewType, 2 alias, 3 string alias, 4 Final, 5 ForwardRef, 6.. two-layer keys (lookup only)
 FAMILIES = [
     [B0, N0, A0, S0, F0, R0] + _extras(B0, N0, A0, S0, 0),
@@ -92,7 +101,10 @@ FAMILIES = [
     [Order.Item, N3, A3, S3, F3, R3] + _extras(Order.Item, N3, A3, S3, 3),
     [GBox, N4, A4, S4, F4, R4] + _extras(GBox, N4, A4, S4, 4),
     [U5, N5, A5, S5, F5, R5] + _extras(U5, N5, A5, S5, 5),
+    [L6, N6, A6, S6, F6, R6] + _extras(L6, N6, A6, S6, 6),
 ]
+# no forward reference *names* a subscripted special form (family 6): only classes are named by their reference
+NAMED_BY_OVERRIDE = {6: {0: None}}
 # The reference semantics, written down here and nowhere derived from typelib:
 # what each key unwraps to (index within its family; None = it is its own unwrapped form / not unwrappable)
 UNWRAPS_TO = {0: None, 1: 0, 2: 0, 3: 5, 4: 0, 5: None, 6: 0, 7: 5, 8: 0, 9: 0, 10: 0}
